@@ -8,7 +8,6 @@ package types_test
 
 import (
 	"bytes"
-	"crypto/elliptic"
 	"fmt"
 	"math/big"
 	"sort"
@@ -90,14 +89,12 @@ func c23rankOf(k keypair.PublicKey) c23rank {
 		if t.Algorithm == ec.SM2 {
 			r.typ = 1
 		}
-		switch t.Params().Name {
-		case elliptic.P224().Params().Name:
-			r.curve = 1
-		case elliptic.P256().Params().Name:
-			r.curve = 2
-		default:
-			r.curve = 20 // sm2p256v1 (only one curve per algorithm besides these is used here)
+		// the documented rule orders keys of one algorithm by their curve label
+		label, err := keypair.GetCurveLabel(t.Curve)
+		if err != nil {
+			panic(err)
 		}
+		r.curve = int(label)
 		return r
 	case ed25519.PublicKey:
 		return c23rank{typ: 2, raw: []byte(t)}
